@@ -561,8 +561,16 @@ PureBuiltin(name, a) ==
     [] name = "symbol?" -> good(VBool(a[1].t = "sym"))
     [] name = "true?" -> good(VBool(Truthy(a[1])))
     [] name = "mod" -> IF IntArgs(a) /\ a[2].n # 0 THEN good(VInt(GoMod(a[1].n, a[2].n))) ELSE bad
-    [] name = "max" -> IF IntArgs(a) THEN good(VInt(SeqMax(a))) ELSE bad
-    [] name = "min" -> IF IntArgs(a) THEN good(VInt(0 - SeqMax([j \in 1..n |-> VInt(0 - a[j].n)]))) ELSE bad
+    \* max / min over the numeric tower: the answer is the FIRST argument that no other argument exceeds (the argument
+    \* itself, int or float as it was given); floats the machine does not track make the choice unknown
+    [] name = "max" -> IF IntArgs(a) THEN good(VInt(SeqMax(a)))
+                       ELSE IF NumArgs(a) /\ ~AnyUntracked(a)
+                       THEN good(a[CHOOSE j \in 1..n : (\A i \in 1..n : Scaled(a[i]) <= Scaled(a[j])) /\ (\A i \in 1..(j - 1) : Scaled(a[i]) < Scaled(a[j]))])
+                       ELSE bad
+    [] name = "min" -> IF IntArgs(a) THEN good(VInt(0 - SeqMax([j \in 1..n |-> VInt(0 - a[j].n)])))
+                       ELSE IF NumArgs(a) /\ ~AnyUntracked(a)
+                       THEN good(a[CHOOSE j \in 1..n : (\A i \in 1..n : Scaled(a[i]) >= Scaled(a[j])) /\ (\A i \in 1..(j - 1) : Scaled(a[i]) > Scaled(a[j]))])
+                       ELSE bad
     [] name = "slice" -> IF ~SeqSpec(a[1]) \/ ~IsSeq(a[2]) \/ a[3].t # "int" \/ a[4].t # "int" THEN bad
                          ELSE IF a[3].n < 0 \/ a[4].n < 0 \/ a[3].n > Len(a[2].c) \/ a[4].n > Len(a[2].c) \/ a[4].n < a[3].n THEN bad
                          ELSE good(MakeSeq(a[1], SubSeq(a[2].c, a[3].n + 1, a[4].n), FALSE))
